@@ -95,6 +95,7 @@ class HistoryModel:
         self.inst: Dict[str, InstanceState] = {}
         self.execs: Dict[str, dict] = {}
         self.caches: Dict[str, dict] = {}
+        self._last_values: Dict[tuple, Any] = {}
         self.keys_seen: Dict[str, Any] = {}
         self.debug_on = bool(scn.get("debug_on", False))
         self.expect: Dict[tuple, Expect] = {}
@@ -110,21 +111,40 @@ class HistoryModel:
         """Reference node names an alias resolves to (list), or 'ValueError'."""
         dg = self.spec["dags"][st.dname]
         kind = a[0]
-        if kind in ("id", "ref"):
+        if kind == "id":
+            # documented: a string alias is looked up as a tag first ("highest priority in case an id with the same value exists")
+            s_ = dg["stmts"][a[1]]
+            if s_["k"] == "call":
+                first = next(i for i, x in enumerate(dg["stmts"]) if x["k"] == "call" and x["fn"] == s_["fn"])
+                if first == a[1]:
+                    tagged = self._tagged(dg, s_["fn"])
+                    if tagged:
+                        return tagged
+            return [("s", a[1])]
+        if kind == "ref":
             return [("s", a[1])]
         if kind == "param":
             return [("p", a[1])]
         if kind == "tag":
-            out = []
-            for idx, s in enumerate(dg["stmts"]):
-                if s["k"] != "call":
-                    continue
-                ft = self.spec["funcs"][s["fn"]]["tag"]
-                tags = [s["tag"]] if s.get("tag") is not None else ([ft] if isinstance(ft, str) else list(ft or []))
-                if a[1] in tags:
-                    out.append(("s", idx))
+            out = self._tagged(dg, a[1])
+            if not out and a[1] in self.spec["funcs"]:
+                # not a tag: a string alias then falls back to the node id (first call site of that function)
+                first = [i for i, x in enumerate(dg["stmts"]) if x["k"] == "call" and x["fn"] == a[1]]
+                if first:
+                    return [("s", first[0])]
             return out if out else "ValueError"
         return "ValueError"   # raw unknown alias
+
+    def _tagged(self, dg: dict, tag: str) -> list:
+        out = []
+        for idx, s in enumerate(dg["stmts"]):
+            if s["k"] != "call":
+                continue
+            ft = self.spec["funcs"][s["fn"]]["tag"]
+            tags = [s["tag"]] if s.get("tag") is not None else ([ft] if isinstance(ft, str) else list(ft or []))
+            if tag in tags:
+                out.append(("s", idx))
+        return out
 
     def resolve(self, st: InstanceState, lst: Optional[list]) -> Any:
         if lst is None:
@@ -142,6 +162,10 @@ class HistoryModel:
         R, X, T = (self.resolve(st, sel.get(k)) for k in ("R", "X", "T"))
         if "ValueError" in (R, X, T):
             return "ValueError"
+        if X is not None:
+            S1 = ref_select(g["nodes"], g["succ"], g["roots"], R, None, None)
+            if S1 != "ValueError" and not set(X) <= S1:
+                return "Precondition"   # excluding a node that R already cut away: caller error left to the user (C12's precondition)
         S = ref_select(g["nodes"], g["succ"], g["roots"], R, X, T)
         return S
 
@@ -171,12 +195,13 @@ class HistoryModel:
         if st.composed is not None:
             return self._composed_expect(key, inst, args)
         r = self.ref.run(st.dname, args, setup_memo=memo, debug_on=self.debug_on, selected=selected)
+        self._last_values = dict(r.values)
         ex = Expect("value")
         ex.value = r.ret
         ex.exec_paths = {p for p, s in r.status.items() if s in ("exec", "op")}
         ex.status = dict(r.status)
         ex.args = {p: (a, k) for p, _, a, k in r.calls}
-        ex.inst, ex.mc, ex.overrides, ex.selected = inst, st.mc, st.overrides, selected
+        ex.inst, ex.mc, ex.overrides, ex.selected = inst, st.mc, copy.deepcopy(st.overrides), selected
         ex.debug_on, ex.is_async = self.debug_on, st.is_async
         faults = [f for f in self._faults_for(key) if tuple(tuple(x) for x in f["path"]) in ex.exec_paths]
         if faults:
@@ -238,7 +263,7 @@ class HistoryModel:
         ex.exec_paths = {p for p, s in r.status.items() if s in ("exec", "op")}
         ex.status = dict(r.status)
         ex.args = {p: (a, k) for p, _, a, k in r.calls}
-        ex.inst, ex.mc, ex.overrides, ex.selected = inst, st.mc, st.overrides, selected
+        ex.inst, ex.mc, ex.overrides, ex.selected = inst, st.mc, copy.deepcopy(st.overrides), selected
         ex.debug_on, ex.is_async = self.debug_on, st.is_async
         return ex
 
@@ -270,7 +295,10 @@ class HistoryModel:
             info["S"] = S
             info["cache_in"], info["from_cache"], info["cache_deps_of"] = op.get("cache_in"), op.get("from_cache"), op.get("cache_deps_of")
             self.execs[op["ex"]] = info
-            if S == "ValueError":
+            if S == "Precondition":
+                ex = Expect("any")
+                info["invalid"] = True
+            elif S == "ValueError":
                 ex = Expect("raises")
                 ex.raises = ("ValueError",)
                 info["invalid"] = True
@@ -299,19 +327,35 @@ class HistoryModel:
             selected = {n[1] for n in info["S"] if n[0] == "s"}
             ex = self._call_expect(key, info["inst"], [lit(a) for a in op["args"]], selected=selected)
             st = self.inst[info["inst"]]
-            if info.get("from_cache") and info["from_cache"] in self.caches and ex.exec_paths is not None:
-                cached = self.caches[info["from_cache"]]["stmts"]
-                for p in list(ex.status):
-                    if len(p) == 1 and p[0][1] in cached and ex.status[p] in ("exec", "op", "deact"):
-                        ex.status[p] = "memo"
-                        ex.exec_paths.discard(p)
-                        ex.args.pop(p, None)
+            if info.get("from_cache") and info["from_cache"] in self.caches and ex.exec_paths is not None and ex.kind == "value":
+                # cached results count as already computed: re-evaluate with the cached values substituted
+                cache = self.caches[info["from_cache"]]
+                dg = self.spec["dags"][st.dname]
+                subst = {}
+                for idx, val in cache["values"].items():
+                    s_ = dg["stmts"][idx]
+                    if s_["k"] == "call" and s_["unpack"]:
+                        for j, o in enumerate(s_["out"]):
+                            subst[o] = val[j] if val is not None else None
+                    else:
+                        subst[s_["out"][0]] = val
+                memo2 = dict(st.setup_memo)
+                r2 = self.ref.run(st.dname, [lit(a) for a in op["args"]], setup_memo=memo2, debug_on=self.debug_on, selected=selected, subst=subst)
+                ex.value = r2.ret
+                ex.exec_paths = {p for p, sname in r2.status.items() if sname in ("exec", "op")}
+                ex.status = {p: ("memo" if sname == "input" else sname) for p, sname in r2.status.items()}
+                ex.args = {p: (a, kw) for p, _, a, kw in r2.calls}
+                st.setup_memo = memo2
             if info.get("cache_in") and ex.kind == "value":
                 keys = {p[0][1] for p, sname in ex.status.items() if len(p) == 1 and sname in ("exec", "op", "deact", "memo")}
                 if info.get("cache_deps_of") is not None:
                     T = self.resolve(st, info["cache_deps_of"])
                     keys -= {n[1] for n in T if n[0] == "s"}
-                self.caches[info["cache_in"]] = {"stmts": keys}
+                vals = {}
+                for idx in keys:
+                    stt = ex.status.get(((st.dname, idx),))
+                    vals[idx] = None if stt == "deact" else self._last_values.get(((st.dname, idx),))
+                self.caches[info["cache_in"]] = {"stmts": keys, "values": vals}
             if ex.kind == "raises":
                 info["failed"] = True
             info["value"] = ex.value
@@ -333,10 +377,13 @@ class HistoryModel:
             setup_idx = {idx for idx, s in enumerate(dg["stmts"]) if s["k"] == "call" and self.spec["funcs"][s["fn"]]["setup"]}
             if sel.get("T") is None:
                 sel = dict(sel)
-                sel["T"] = [["id", idx] for idx in sorted(setup_idx)]
+                sel["T"] = [["ref", idx] for idx in sorted(setup_idx)]
                 if not setup_idx:
                     sel["T"] = []
             S = self.select(st, sel)
+            if S == "Precondition":
+                self.expect[key] = Expect("any")
+                return
             if S == "ValueError":
                 ex = Expect("raises")
                 ex.raises = ("ValueError",)
@@ -350,7 +397,7 @@ class HistoryModel:
             ex.exec_paths = {p for p, s in r.status.items() if s == "exec"}
             ex.status = dict(r.status)
             ex.args = {p: (a, kw) for p, _, a, kw in r.calls}
-            ex.inst, ex.mc, ex.overrides, ex.selected, ex.is_async = inst, st.mc, st.overrides, selected, st.is_async
+            ex.inst, ex.mc, ex.overrides, ex.selected, ex.is_async = inst, st.mc, copy.deepcopy(st.overrides), selected, st.is_async
             ex.setup_only = True
             st.setup_memo = memo
             self.expect[key] = ex
